@@ -38,6 +38,9 @@ ghostvar('now', Int)            # value of the last time.time(); every call retu
 ghostvar('handled', Int)        # number of handler invocations (C08: executed at most once)
 # whether the message Message.parse returned last came through a verified SK payload (observer)
 ghostvar('protected_seen', Bool, observer=True)
+# C16 routing observers: how many datagrams have been handed to IkeSa.process_message, and to which IKE_SA the last
+ghostvar('delivered', Int, observer=True)
+ghostvar('routed', Ref('ikesa.IkeSa'), observer=True)
 
 heapclass('ikesa.IkeSa',
           state=Int, my_spi=Bytes, peer_spi=Bytes, my_msg_id=Int, peer_msg_id=Int, is_initiator=Bool,
